@@ -2,7 +2,7 @@
 import re
 from mir import Expr, natural_loops, walk, callee_name, render
 from sym import Explorer, show, subterms, lin
-from pat import called, canon, is_call, deref_all
+from pat import called, canon, is_call, deref_all, agg_variant
 
 FORWARDING_TRAITS = {
     'std::clone::Clone': ['clone'],
@@ -329,4 +329,108 @@ def left_deep(ctx, run, rule, fn_prefixes, floor=None):
                               f"{s.get('file')}:{s.get('line')}")
     if floor is not None:
         run.floor(rule, 'left-deep accumulation sites', n, floor)
+    return n
+
+
+# ------------------------------------------------------------------ R20.6 a depth counter is released on the way out
+
+def _counter_updates(body):
+    """[(block, key, op, line)] for statements `P = P + c` / `P = P - c` (c a positive constant) where P is a field reached through a
+    reference (state that outlives the call); key = (base local, field name/index)."""
+    out = []
+    tmp = {}     # local -> (key, op): checked arithmetic result tuples
+    def place_key(pl):
+        pr = pl.get('proj') or []
+        if len(pr) >= 2 and pr[0].get('k') == 'deref' and pr[-1].get('k') == 'field' and all(x.get('k') in ('deref', 'field') for x in pr):
+            return (pl['local'], tuple((x.get('name') or x.get('i')) for x in pr if x.get('k') == 'field'))
+        return None
+    for bb, i, s in body.all_stmts():
+        if s['k'] != 'assign':
+            continue
+        rv = s['rv']
+        if rv.get('k') == 'bin' and rv.get('op') in ('Add', 'Sub') and rv['b'].get('k') == 'const' and isinstance(rv['b'].get('val'), int) and rv['b']['val'] > 0 \
+                and rv['a'].get('k') in ('copy', 'move') and place_key(rv['a']['place']) is not None:
+            k = place_key(rv['a']['place'])
+            dst = s['place']
+            if place_key(dst) == k:
+                out.append((bb, k, rv['op'], s.get('line')))
+            elif not dst.get('proj'):
+                tmp[dst['local']] = (k, rv['op'])
+        elif rv.get('k') == 'use' and rv['op'].get('k') in ('copy', 'move'):
+            src = rv['op']['place']
+            if src['local'] in tmp and place_key(s['place']) == tmp[src['local']][0]:
+                out.append((bb, tmp[src['local']][0], tmp[src['local']][1], s.get('line')))
+    return out
+
+
+def depth_counter_pairing(ctx, run, rule, only=None):
+    """Pairing rule for depth limits kept in a field (`self.depth += 1; if self.depth > MAX { return Err }; recurse`): in a function of a
+    recursive cycle, a counter that is incremented on the way into the recursion must be decremented again on every path that returns
+    normally after it — otherwise it counts the containers visited so far, not the nesting depth, and a wide but shallow document is
+    rejected.  No such counter exists on the pinned tree (0 instances, proved vacuously); the rule speaks when one is added."""
+    cg = augment(ctx)
+    f = ctx.facts
+    allp = [p for p in f.bodies if f.bodies[p].kind != 'Promoted' and (only is None or only(p))]
+    sccs = cg.sccs(set(f.bodies))
+    rec = set()
+    for scc in sccs:
+        if len(scc) > 1 or any(p in cg.edges.get(p, ()) for p in scc):
+            rec |= set(scc)
+    n = 0
+    for p in sorted(allp):
+        if p not in rec:
+            continue
+        b = f.bodies[p]
+        ups = _counter_updates(b)
+        incs = [u for u in ups if u[2] == 'Add']
+        if not incs:
+            continue
+        scc = next(s for s in sccs if p in s)
+        for key in sorted({u[1] for u in incs}, key=str):
+            # is the counter compared with a constant (a limit) somewhere in the cycle?  otherwise it is a cursor / length, not a depth guard
+            limited = False
+            name = str(key[1][-1])
+            for m in scc:
+                mb = f.bodies[m]
+                for q in Explorer(mb, max_paths=1500).explore():
+                    for c in q.conds:
+                        t = c[0]
+                        if t[0] == 'bin' and t[1] in ('Lt', 'Le', 'Gt', 'Ge') and any(x[0] == 'const' and isinstance(x[1], int) for x in (t[2], t[3])) \
+                                and any(s_[0] == 'field' and str(s_[2]) == name for s_ in subterms(t)):
+                            limited = True
+                    if limited:
+                        break
+                if limited:
+                    break
+            if not limited:
+                continue
+            n += 1
+            desc = f'counter[{name}]'
+            loc = f'{b.file}:{[u[3] for u in incs if u[1] == key][0] or b.line}'
+            decs_anywhere = [(m, u) for m in scc for u in _counter_updates(f.bodies[m]) if u[2] == 'Sub' and u[1][1] == key[1]]
+            if not decs_anywhere:
+                run.violation(rule, p, desc, f'`{name}` is incremented on the way into the recursion and compared with a limit, but never decremented in the cycle '
+                              f'{{{", ".join(short_name(m) for m in sorted(scc))}}}: it counts the containers visited so far, not the nesting depth, so a shallow document with more '
+                              'containers than the limit is rejected', loc)
+                continue
+            inc_blocks = {u[0] for u in incs if u[1] == key}
+            dec_blocks = {u[0] for u in _counter_updates(b) if u[2] == 'Sub' and u[1] == key}
+            if not dec_blocks:
+                run.undecided(rule, p, desc, f'`{name}` is incremented here and decremented in another function of the cycle: the pairing is not followed across functions', loc)
+                continue
+            bad = False
+            for q in Explorer(b, max_paths=3000).explore():
+                if q.end[0] != 'return' or q.ret is None:
+                    continue
+                r = deref_all(q.ret)
+                err = (agg_variant(r) and r[1][2] in ('Err', 'None')) or is_call(r, 'FromResidual::from_residual')
+                blocks = set(q.blocks)
+                if blocks & inc_blocks and not err and not (blocks & dec_blocks):
+                    bad = True
+            if bad:
+                run.violation(rule, p, desc, f'on some path that returns normally `{name}` is incremented but not decremented again: it drifts upwards with every container visited', loc)
+            else:
+                run.proved(rule, p, desc, f'`{name}` incremented on the way in and decremented on every normal return', loc)
+    if n == 0:
+        run.proved(rule, 'crate', 'depth-counters', 'no field counter with a limit is incremented in a recursive cycle (nothing to pair on this tree)', nontrivial=False)
     return n
